@@ -290,7 +290,7 @@ func checkC06(c *Ctx) {
 	}
 	devHits := map[string][]devHit{}
 	devCases := 0
-	sampled := map[string]bool{}
+	sampled := map[string]map[string]any{}
 
 	var problems []string // infrastructure problems seen in worker callbacks (reported after the stream is drained)
 	problem := func(format string, a ...any) {
@@ -438,10 +438,10 @@ func checkC06(c *Ctx) {
 			nTreeOnly++
 		}
 		c.Case(fam+":"+cs.Exp, cs.NAlt > 0 && (cs.NDisc > 0 || len(implDisc) > 0))
-		if !sampled[fam] && cs.NAlt > 0 {
-			sampled[fam] = true
-			c.Sample(map[string]any{"family": fam, "text": c06Layout(c06Subst(cs.Text, run0, false)), "fully_parenthesised": c06Layout(c06Subst(cs.Full, run0, false)),
-				"tree": cs.Exp, "operands": run0.Vals, "model_outcome": run0.Out, "other_groupings": cs.NAlt, "told_apart_by_model": cs.NDisc, "told_apart_on_impl": len(implDisc)})
+		if key := c06Layout(cs.Text); cs.NAlt > 0 && (sampled[fam] == nil || key < sampled[fam]["text_pattern"].(string)) {
+			// per family the tree with the smallest text (independent of the order of arrival)
+			sampled[fam] = (map[string]any{"text_pattern": key, "family": fam, "text": c06Layout(c06Subst(cs.Text, run0, false)), "fully_parenthesised": c06Layout(c06Subst(cs.Full, run0, false)),
+				"tree": cs.Exp, "operands": c06Literals(run0.Vals), "model_outcome": c06OutString(run0.Out), "other_groupings": cs.NAlt, "told_apart_by_model": cs.NDisc, "told_apart_on_impl": len(implDisc)})
 		}
 	}
 
@@ -554,6 +554,11 @@ func checkC06(c *Ctx) {
 		c.Known(name, fmt.Sprintf("binary operators of equal precedence group right to left: %s (%d of %d trees are explained by it and by nothing else)", hits[0].what, devCases, nCases))
 	}
 
+	for _, fam := range []string{"bin2", "bin3", "pre2", "presuf", "inner", "deep"} {
+		if m := sampled[fam]; m != nil {
+			c.Sample(m)
+		}
+	}
 	c.Set("exhaustive", true)
 	c.Set("rule", "TLC enumerates token sequences (all 21 binary operators: singles, ordered pairs, ordered triples [quick: the third with (i+j+k+seed)%3=0]; a prefix operator at every operand of singles and pairs, two prefixes; each suffix kind at every operand of singles [thorough: pairs]; suffix pairs; prefix with suffix; precedence restarting inside [ ] ( ) and array literals; assignment chains of 4; sampled sequences of 4 operators) and for each every well-formed grouping (2, 5, 14 bracketings; prefix/suffix applied at every enclosing sub-expression). One case = one tree; non-trivial = the token sequence has another grouping and some operand assignment tells the two apart (by the reference evaluation or on the implementation); distinct by tree")
 	c.Set("checker_cmd", "tlc MC_Parse (laws: Parse(Render(t)) = t, Parse(FullParen(t)) = t, no redundant parenthesis, same tokens, injectivity, deviation characterisation); replay through lang.VerifExprSexpr and lang.EvalProgram")
@@ -584,6 +589,24 @@ func checkC06(c *Ctx) {
 	c.Set("trees_explained_by_parse_right_assoc", devCases)
 	c.Set("tlc_wall_s", tlcWall.Seconds())
 	_ = nAltImplRun
+}
+
+func c06Literals(vs []c06Val) []string {
+	out := make([]string, len(vs))
+	for i, v := range vs {
+		out[i] = c06Literal(v)
+	}
+	return out
+}
+
+func c06OutString(o c06Out) string {
+	switch o.K {
+	case "ok":
+		return "prints " + c06Printed(o.V) + "; variables afterwards " + strings.Join(c06Literals(o.Env), " ")
+	case "err":
+		return "runtime error"
+	}
+	return "outside the evaluated universe"
 }
 
 func c06FirstLine(o c06Obs) string {
